@@ -35,7 +35,8 @@ ASSUMPTIONS = [
     "extend_super placed on a definition that is not the first of its name in the class body is finding F20, not the model",
 ]
 REPORT_COUNTERS = ["hierarchies", "class_statements", "probes", "extend_super_2bases", "plain_single_def",
-                   "create_subclass", "self_identity_checked", "call_next_sites", "recurse_sites", "mc_roots", "f21_region_probes"]
+                   "create_subclass", "self_identity_checked", "call_next_sites", "recurse_sites", "mc_roots", "f21_region_probes",
+                   "marked_mixins_merged_by_empty_class"]
 
 TYPES = ["int", "str", "float", "bytes", "list", "bool", "object"]
 PY = {"int": int, "str": str, "float": float, "bytes": bytes, "list": list, "bool": bool, "object": object}
@@ -47,11 +48,58 @@ def plan(tier):
     n = 4800 if tier == "quick" else 96000
     return {"cases": n, "params": {}, "timeout_s": 900 if tier == "quick" else 3600,
             "min": {"probes": 50_000, "extend_super_2bases": 200, "self_identity_checked": 10_000,
-                    "call_next_sites": 500, "recurse_sites": 500}}
+                    "call_next_sites": 500, "recurse_sites": 500,
+                    "marked_mixins_merged_by_empty_class": 100}}
 
 
 # ------------------------------------------------------------------------------------------- generation
+def _gen_mixin_assembly(rng):
+    """an overloading root, plain mixin classes with marked definitions, pass-through subclasses of any of them,
+    and a class that combines them (empty body / create_subclass / marked own definition)"""
+    tys = list(TYPES)
+    rng.shuffle(tys)
+    mid = 0
+    classes = []
+
+    def mk(name, bases, root, ovldcls, defs, create=False):
+        classes.append({"name": name, "bases": bases, "root": root, "ovldcls": ovldcls, "defs": defs, "create": create})
+        return len(classes) - 1
+
+    def d(nm, t, ext):
+        nonlocal mid
+        kind = "walk" if t == "list" else rng.choice(["leaf", "leaf", "next"])
+        mid += 1
+        return {"mid": mid - 1, "name": nm, "t": t, "ext": ext, "kind": kind}
+
+    nroot = rng.choice([1, 2, 2])
+    root = mk("K0", [], rng.choice(["base", "mc"]), True, [d("f", tys.pop(), False) for _ in range(nroot)])
+    branches = [root]
+    for i in range(rng.choice([1, 2, 2])):
+        defs = [d("f", tys.pop(), True)]
+        if rng.random() < 0.3:
+            defs.append(d("g", rng.choice(TYPES), True))
+        branches.append(mk(f"K{len(classes)}", [], "plain", False, defs))
+    tops = []
+    for b in branches:
+        t = b
+        for _ in range(rng.choice([0, 1, 1, 2])):      # pass-through subclasses that define nothing
+            t = mk(f"K{len(classes)}", [t], None, classes[t]["ovldcls"], [])
+        tops.append(t)
+    how = rng.choice(["empty", "empty", "create", "own"])
+    if how == "create":
+        comb = mk(f"K{len(classes)}", tops, None, True, [], create=True)
+    elif how == "own" and tys:
+        comb = mk(f"K{len(classes)}", tops, None, True, [d("f", tys.pop(), True)])
+    else:
+        comb = mk(f"K{len(classes)}", tops, None, True, [])
+    if rng.random() < 0.5:
+        mk(f"K{len(classes)}", [comb], None, True, [])
+    return {"classes": classes}
+
+
 def gen_case(rng, params, idx):
+    if idx % 6 == 5:
+        return _gen_mixin_assembly(rng)
     classes = []
     mid = 0
     for i in range(rng.randint(2, 7)):
@@ -97,6 +145,10 @@ def gen_case(rng, params, idx):
                             ext = rng.random() < 0.7
                         else:
                             ext = rng.random() < 0.04
+                    elif not ovldcls:
+                        # a mixin class without the metaclass whose definition is marked: it extends whatever the
+                        # class it is later mixed into inherits from its other bases
+                        ext = rng.random() < 0.6
                     kind = "walk" if t == "list" else rng.choice(["leaf", "leaf", "leaf", "next"])
                     defs.append({"mid": mid, "name": nm, "t": t, "ext": ext, "kind": kind})
                     mid += 1
@@ -150,6 +202,9 @@ class Model:
             return UNSPEC
         if own:
             if not c["ovldcls"]:
+                # ordinary class body: the last definition wins; a marked one is an overloaded function of its own
+                if own[-1]["ext"]:
+                    return ("table", {own[-1]["t"]: own[-1]["mid"]})
                 return ("plain", own[-1]["mid"])
             if any(d["ext"] for d in own[1:]):
                 return "F20"
@@ -177,16 +232,50 @@ class Model:
             for d in own:
                 tab[d["t"]] = d["mid"]
             return ("table", tab)
-        live = []
+        live, live_b = [], []
         for b in c["bases"]:
             e = self.eff(b, nm)
             if e is not None:
                 live.append(e)
+                live_b.append(b)
         if not live:
             return None
         if len(live) > 1:
+            # a class of the metaclass that combines an overloaded method with *marked mixins* (every later base
+            # providing the name is a plain mixin class whose definition carries extend_super) dispatches over all
+            # of them - the documented mixin use (One.create_subclass(M1, M2) / class Four(Two, Three): pass)
+            if c["ovldcls"] and all(self.marked(b, nm) for b in live_b[1:]):
+                if live[0] in (UNSPEC, "F20"):
+                    return live[0]
+                if live[0][0] != "table":
+                    return UNSPEC
+                tab = dict(live[0][1])
+                for e in live[1:]:
+                    if set(e[1]) & set(tab):
+                        return UNSPEC       # identical signatures on both sides: who replaces whom is not stated
+                    tab.update(e[1])
+                return ("table", tab)
             return UNSPEC
         return live[0]
+
+    def marked(self, b, nm):
+        """the attribute found on class b is the marked overloaded function of a plain mixin class"""
+        cb = self.classes[b]
+        own = [d for d in cb["defs"] if d["name"] == nm]
+        if cb["ovldcls"]:
+            return False
+        if own:
+            return bool(own[-1]["ext"])
+        liveb = [x for x in cb["bases"] if self.eff(x, nm) is not None]
+        return len(liveb) == 1 and self.marked(liveb[0], nm)
+
+    def merged_mixins(self, ci, nm):
+        c = self.classes[ci]
+        if any(d["name"] == nm for d in c["defs"]) or not c["ovldcls"]:
+            return False
+        live_b = [b for b in c["bases"] if self.eff(b, nm) is not None]
+        e = self.eff(ci, nm)
+        return len(live_b) > 1 and e not in (UNSPEC, "F20", None)
 
     def n_ext_bases(self, ci, nm):
         c = self.classes[ci]
@@ -291,6 +380,8 @@ def check_case(spec, res):
             if model.n_ext_bases(ci, nm) >= 2:
                 res.count("extend_super_2bases")
                 ext2 = True
+            if model.merged_mixins(ci, nm):
+                res.count("marked_mixins_merged_by_empty_class")
         for cj in built:
             cls = ns[classes[cj]["name"]]
             for nm in NAMES:
@@ -330,6 +421,10 @@ def check_case(spec, res):
                     f21 = _f21_region(model, classes, cj, nm, ns)
                     if f21 is not None and exp not in (UNSPEC, "F20"):
                         res.count("f21_region_probes")
+                        if not _same(got, exp) and _f21_region.collide:
+                            model.taint.add((cj, nm))
+                            res.skip_unspec()
+                            continue
                         if not _same(got, exp):
                             try:
                                 pred = model.expected_from(("table", f21), v, inst)
@@ -395,20 +490,29 @@ def _f21_region(model, classes, ci, nm, ns):
     if not marked:
         return None
     tab = {}
+    seen_t = []
+
+    def put(t, mid):
+        seen_t.append(t)
+        tab[t] = mid
     for b, v in [ovlds[0]] + marked:
         e = model.eff(b, nm)
         if e in (UNSPEC, "F20") or e is None:
             return None
-        tab.update(e[1] if e[0] == "table" else {model.kind[e[1]]["t"]: e[1]})
-    tab[own[0]["t"]] = own[0]["mid"]
+        for t, m in (e[1] if e[0] == "table" else {model.kind[e[1]]["t"]: e[1]}).items():
+            put(t, m)
+    put(own[0]["t"], own[0]["mid"])
     for b, v in vals:
         if v is not None and not ovld.is_ovld(v):
             e = model.eff(b, nm)
             if e is None or e in (UNSPEC, "F20") or e[0] != "plain":
                 return None
-            tab[model.kind[e[1]]["t"]] = e[1]
+            put(model.kind[e[1]]["t"], e[1])
     for d in own[1:]:
-        tab[d["t"]] = d["mid"]
+        put(d["t"], d["mid"])
+    # identical signatures coming from several of the merged sources: on this path they are stacked (call_next
+    # reaches the shadowed one) where the ordinary path replaces - neither is stated
+    _f21_region.collide = len(seen_t) != len(set(seen_t))
     return tab
 
 
